@@ -172,6 +172,8 @@ type FnCtx struct {
 	callOrd  map[string]int
 	retCount int
 	closureOf map[*ssa.Alloc]*ssa.MakeClosure
+	fvs       map[string]VPtr // captured variables when fn is a closure
+	callAsserts map[int]int   // assertcall clause index -> matching call sites executed
 	firstIter []string
 	allocOrder map[*ssa.Alloc]int
 	iterMap   map[ssa.Value]string
